@@ -10,6 +10,7 @@ import os
 import random
 import shutil
 
+import structure
 from common import (PLACEHOLDER, WORK, Report, ToolError, chars, check_action_coverage, inproc_map, log, run_cases,
                     run_tlc, std_main)
 
@@ -197,6 +198,8 @@ def runner(rep, tier, seed, replay):
     sample = rnd.sample(okidx, nsample) if okidx else []
     to_run += sample
     log("[C01] process level: %d mismatch clusters, %d cases (%d sampled matches)" % (len(by_cluster), len(to_run), len(sample)))
+    # the same lines as the head of `if` / `else if` / `while` (separate code path: scripting.rs::run_exp_test_br)
+    structure.check_heads(rep, [proc_case(cases[i]) for i in sample], rnd, 150 if tier == "quick" else 1500, "C01")
     results = run_cases([proc_case(cases[i]) for i in to_run])
     drift = 0
     mism_kind = dict(mism)
